@@ -48,7 +48,13 @@ Fixpoint index_of_pt (p : pt) (l : list pt) (i : Z) : Z :=
   | [] => -1
   | q :: t => if pt_eqb p q then i else index_of_pt p t (i + 1)
   end.
-Definition find_sigma (mv iv : list pt) : list Z := map (fun p => index_of_pt p iv 0) mv.
+(* a vertex that sits at its own index keeps it (two vertices may share coordinates: the midpoints of an edge declared
+   twice); the candidate is only a candidate - sigma_ok / verts_match / the face and edge comparisons decide *)
+Definition find_sigma (mv iv : list pt) : list Z :=
+  map (fun ip => match nth_error iv (Z.to_nat (fst ip)) with
+                 | Some q => if pt_eqb (snd ip) q then fst ip else index_of_pt (snd ip) iv 0
+                 | None => index_of_pt (snd ip) iv 0
+                 end) (combine (zrange (Zlen mv)) mv).
 
 (* model vertices (in model numbering) against implementation vertices (in its numbering) *)
 Definition verts_match (sigma : list Z) (mv iv : list pt) : bool :=
